@@ -310,6 +310,50 @@ mod vgrp {
     }
 }
 
+/// External time under the virtual clock: the input generator advances the clock by `HX_VGEN`
+/// ticks per input (outside the timed section), the call by `HX_VCLOCK` ticks.
+fn vgen() -> u32 {
+    let g: u64 = std::env::var("HX_VGEN").ok().and_then(|v| v.parse().ok()).unwrap_or(0);
+    divan::__verif::vclock_advance(g);
+    7
+}
+
+/// `skip_ext_time` set at the benchmark
+#[divan::bench(skip_ext_time, sample_size = 1)]
+fn vskip_attr(b: Bencher) {
+    run("vskip_attr");
+    b.with_inputs(vgen).bench_values(|x| {
+        vcall("vskip_attr");
+        x
+    });
+}
+
+#[divan::bench_group(skip_ext_time = true)]
+mod vsgrp {
+    use super::{run, vcall, vgen};
+    use divan::Bencher;
+
+    /// `skip_ext_time` inherited from the group
+    #[divan::bench(sample_size = 1)]
+    fn vskip_grp(b: Bencher) {
+        run("vskip_grp");
+        b.with_inputs(vgen).bench_values(|x| {
+            vcall("vskip_grp");
+            x
+        });
+    }
+}
+
+/// no `skip_ext_time` below the runner
+#[divan::bench(sample_size = 1)]
+fn vext_plain(b: Bencher) {
+    run("vext_plain");
+    b.with_inputs(vgen).bench_values(|x| {
+        vcall("vext_plain");
+        x
+    });
+}
+
 /// On the OS timer: every call really takes at least 400 ms.
 #[divan::bench(sample_count = 6, sample_size = 1)]
 fn os_sleep400(b: Bencher) {
@@ -363,6 +407,9 @@ const ALL: &[&str] = &[
     "hx_loop_e2e::vtune_plain",
     "hx_loop_e2e::vtune_attr",
     "hx_loop_e2e::vgrp::vtune_grp",
+    "hx_loop_e2e::vskip_attr",
+    "hx_loop_e2e::vsgrp::vskip_grp",
+    "hx_loop_e2e::vext_plain",
 ];
 
 /// `HX_BUILDER`: `;`-separated builder calls (`sample_count=7`, `sample_size=3`,
@@ -387,6 +434,7 @@ fn main() {
             "threads" => d.threads(v.split(',').map(|t| t.parse::<usize>().expect("threads")).collect::<Vec<_>>()),
             "min_time" => d.min_time(std::time::Duration::from_secs_f64(v.parse().expect("secs"))),
             "max_time" => d.max_time(std::time::Duration::from_secs_f64(v.parse().expect("secs"))),
+            "skip_ext_time" => d.skip_ext_time(v == "true"),
             other => panic!("unknown builder call {other}"),
         };
     }
